@@ -42,19 +42,37 @@ def _mk_slerp(fn_name, grid, gname, tiers):
     fnq = FQ + 'slerp' if fn_name == 'quaternion.slerp' else 'ahrs.common.orientation:slerp'
 
     @harness(f'C12/{fn_name}.{gname}', tiers=tiers, functions=[fnq], max_paths=16,
-             bounds=f'weights {[str(t) for t in grid]}')
+             bounds=f'weights {[str(t) for t in grid]}; |p.q| >= 1e-9 (the exact tie p.q = 0 is KF-C12-tie / C12/tie)')
     def hf(h, fn_name=fn_name, grid=grid):
         fn = qmod.slerp if fn_name == 'quaternion.slerp' else ori.slerp
-        p, q = h.unit_quat('p'), h.unit_quat('q')
-        d = _dot(p, q)
+        # every pair of unit quaternions with p.q = dd is (p, dd p + sqrt(1 - dd^2) e) with e a unit vector orthogonal to p:
+        # this parametrisation of the whole domain makes p.q structurally visible to the solver
+        p, e = h.unit_quat('p'), h.unit_quat('e')
+        h.assume(h.eq(_dot(p, e), 0.0))
+        dd = h.real('dd', -1.0, 1.0)
+        h.assume(h.ge(dd, 1e-9) | h.le(dd, -1e-9))
+        if h.sym:
+            from symnp import core as _core
+            rr = _core.sym_sqrt(1.0 - dd * dd)
+        else:
+            rr = np.sqrt(max(0.0, 1.0 - dd * dd))
+            ee = e - _dot(p, e) * p
+            e = ee / np.linalg.norm(ee)
+        q = dd * p + rr * e
+        d = dd
+        h.lemma('p.q == dd', h.eq(_dot(p, q), dd))
         sg = h.split_signs([d], 'd')[0] if h.sym else (1 if d >= 0 else -1)
         qt = sg * q                      # the nearer of q and -q
         ad = sg * d
-        # away from the threshold itself (a 1e-9 band around 0.9995 is excluded: branch choice there is within tolerance)
         out = fn(p.copy(), q.copy(), _tarr(h, grid))
         h.out('slerp', out)
         h.check('shape', h.shape_is(out, (len(grid), 4)))
-        lerp = h.gt(ad, 0.9995)
+        theta0 = None
+        if h.sym:
+            from symnp.core import CTX, SR, Lin, PiPoly
+            for n, at in CTX.atoms.items():
+                if n.startswith('acos_'):
+                    theta0 = SR(at['var'], Lin({n: PiPoly({0: Fr(1)})}, PiPoly()))
         for k, t in enumerate(grid):
             o = out[k]
             h.check(f't={t}: |out| == 1', h.is_unit(o))
@@ -62,19 +80,20 @@ def _mk_slerp(fn_name, grid, gname, tiers):
                 h.check('out(0) == p', h.eq(o, p))
             if t == 1:
                 h.check('out(1) == nearer of +-q', h.eq(o, qt))
-            # out = a p + b q~ with a, b >= 0: components along p and q~ (Gram system), stated without division:
-            # with g = 1 - d^2 > 0:  a g = (o.p) - (o.q~) d ,  b g = (o.q~) - (o.p) d
             op, oq = _dot(o, p), _dot(o, qt)
+            # out = a p + b q~ with a, b >= 0, stated without division: a (1-d^2) = o.p - (o.q~) d, b (1-d^2) = o.q~ - (o.p) d
             h.check(f't={t}: on the minor arc (non-negative combination of p and q~)',
                     h.ge(op - oq * ad, 0.0) & h.ge(oq - op * ad, 0.0))
             if h.sym:
-                from symnp import trig
-                from symnp.core import SR, CTX
-                # cos(t theta0) from the code's own angle atom when the SLERP branch ran; otherwise skip (LERP: tolerance)
-                th = [a for n, a in CTX.atoms.items() if n.startswith('acos_')]
-            h.check(f't={t}: constant speed: p.out == cos(t theta0) (SLERP) / within 1e-6 (LERP)',
-                    _speed(h, op, ad, t, lerp))
-        # replacing q by -q does not change the path
+                if theta0 is not None:
+                    from symnp import trig
+                    ct, _st = trig.cossin(theta0 * t)
+                    h.check(f't={t}: constant speed: p.out == cos(t theta0)', h.eq(op, SR(ct)))
+                else:
+                    h.check(f't={t}: constant speed on the LERP branch (within 1e-5)', _speed(h, op, ad, t, h.true()))
+            else:
+                th = np.arccos(min(1.0, ad))
+                h.check(f't={t}: constant speed: p.out == cos(t theta0)', h.eq(op, np.cos(float(t) * th), tol=1e-5))
         out2 = fn(p.copy(), (-q).copy(), _tarr(h, grid))
         h.check('slerp(p, -q) == slerp(p, q)', h.eq(out2, out))
     hf.__doc__ = f"{fn_name} at weights {[str(t) for t in grid]}: unit, endpoints, minor arc, constant angular speed, sign symmetry"
@@ -207,3 +226,23 @@ def _mk_jumps(n, tiers):
 _mk_jumps(3, ('quick', 'thorough'))
 _mk_jumps(4, ('quick', 'thorough'))
 _mk_jumps(5, ('thorough',))
+
+
+@harness('C12/tie', functions=[FQ + 'slerp'], max_paths=8)
+def tie(h):
+    """exactly orthogonal endpoints (p.q = 0, both q and -q equally near): unit interpolants from p to one of +-q"""
+    p = h.unit_quat('p')
+    a = h.unit_quat('a')
+    # q := a minus its component along p, normalised, is built by the harness only for p = e_k strata; here: q orthogonal to p
+    q = h.unit_quat('q')
+    h.assume(h.eq(_dot(p, q), 0.0))
+    out = qmod.slerp(p.copy(), q.copy(), _tarr(h, [Fr(0), Fr(1, 2), Fr(1)]))
+    h.out('slerp', out)
+    h.check('out(0) == p', h.eq(out[0], p))
+    h.check('out(1) == +-q', h.eq_up_to_sign(out[2], q))
+    for k in range(3):
+        h.check(f'|out[{k}]| == 1', h.is_unit(out[k]))
+    # KF-C12-tie: at the exact tie, slerp(p, -q) ends at -q while slerp(p, q) ends at q
+    out2 = qmod.slerp(p.copy(), (-q).copy(), _tarr(h, [Fr(1)]))
+    h.check('slerp(p, -q) == slerp(p, q) (outside KF-C12-tie)', h.kf('KF-C12-tie', h.true()) | h.eq(out2[0], out[2]))
+    h.check('at the tie slerp(p, -q)(1) is +-q (known defect only)', h.eq_up_to_sign(out2[0], q))
